@@ -81,7 +81,12 @@ func c01(g *Gen) {
 	n := g.N(120, 3000)
 	for i := 0; i < n; i++ {
 		npk := 1 + g.R.Intn(4)
+		// import paths that begin like the spelling of an anonymous type ("chan ...", "func(...")
+		pgModule = []string{"ex.test", "ex.test", "ex.test", "ex.test", "ex.test", "chantest.example", "functional"}[i%7]
 		prog, cls := g.genProgram(c01ver == 2, npk, 1+g.R.Intn(3))
+		if pgModule != "ex.test" {
+			cls = append(cls, "path-starts-like-anonymous-type")
+		}
 		chk, err := typeCheck(prog)
 		if err != nil {
 			panic(err)
@@ -94,4 +99,5 @@ func c01(g *Gen) {
 		}
 		g.Emit("C01.universe", in, dumpUniverse(u), append(cls, "universe")...)
 	}
+	pgModule = "ex.test"
 }
